@@ -13,3 +13,23 @@ claim("C07", "proof",
       "flatten_sem excludes re-flattening of already-transformed oracles.",
       "Coq proof (induction over arena / fuel) + extraction-based differential correspondence",
       "DESIGN.md section 6, C07")
+
+claim("C01", "proof",
+      "Coq theorem batch_pointwise (every number type, hence binary32: a batch position depends only on that position "
+      "of the inputs, for every batch size, SIMD-rounded count and stale content) plus the deck/tape and rewriting "
+      "theorems shared with C07; tie: the model's Deck::Deck is run on the implementation's own optimised DAG and must "
+      "give the identical slot layout and tape; oracle: ArrayEvaluator::value vs the model's reference denotation in "
+      "doubles at stable points, and bit-identity of one point across 10 batch sizes x 3 slot positions.",
+      "Trusted: Coq kernel, translators, extraction, OCaml binary32 emulation, harness.  IEEE rounding of the rewritten "
+      "expression is covered by a tolerance oracle, not a theorem; Eigen's SIMD kernels are assumed slot-wise.",
+      "Coq proof (fold induction over the tape) + extraction-based differential correspondence",
+      "DESIGN.md section 6, C01")
+
+claim("C05", "proof",
+      "Coq theorems about the line-by-line model of Tape::push (parametric in the number type, so bit-identity holds "
+      "for binary32); tie: every push the implementation performs (nested interval pushes, point pushes) is replayed "
+      "through the extracted model on the implementation's own interval bounds / slot values and must yield the identical "
+      "tape; oracle: bit-identical values of base / pushed / getBase tapes at 27 points of every box.",
+      "Trusted: Coq kernel, extraction, harness.  The interval premise (bounds enclose point values) is property C02.",
+      "Coq proof (invariants over the two passes of push) + replay correspondence",
+      "DESIGN.md section 6, C05")
